@@ -352,6 +352,44 @@ def comb_capacity(rep, u, curves=None):
     return n
 
 
+def predbl_capacity(rep, u, curves):
+    """the doubling-table multipliers (…pre_dbl_mult): the table built by the matching precompute routine has curve->m
+    entries (2^i * P for i < m); the evaluator walks the bits of the scalar and reads entry i for every set bit.  Either a
+    guard relates the scalar's bit length to curve->m, or every legal scalar (< n) has at most m bits - which the curve
+    table decides: bitlen(n) <= m must hold for every built-in curve."""
+    n = 0
+    for fn in u.function_list:
+        if fn.relfile() != EC_H or not fn.has_cfg or "pre_dbl_mult" not in fn.name or "precompute" in fn.name:
+            continue
+        reads = [x for _p, _r, x, _ps in fn.nodes() if x.get("k") == "sub" and key(core.strip_casts(x["b"])).endswith("pt_arr") and
+                 core.strip_casts(x["i"]).get("k") == "ref"]
+        if not reads:
+            continue
+        n += 1
+        rep.functions.add(fn.name)
+        guard = False
+        for bid in fn.reachable_blocks():
+            c = fn.blocks[bid].cond
+            if c is None:
+                continue
+            ks = key(c)
+            if "curve->m" in ks and ("bits" in ks or "bn_calc_bits" in ks or "->digits" in ks):
+                guard = True
+        desc = "%s reads table entry i only for i < curve->m (the number of entries the precompute routine fills)" % fn.name
+        if guard:
+            rep.proved("R-CAP", fn, "doubling-table-capacity", desc, "guarded against curve->m")
+            continue
+        over = ["%s (%d > %d)" % (nm_, nb_, m_) for nm_, nb_, m_ in (curves or []) if nb_ > m_]
+        if not curves:
+            rep.undecided("R-CAP", fn, "doubling-table-capacity", desc, "no guard and no curve table")
+        elif over:
+            rep.violated("R-CAP", fn, "doubling-table-capacity", desc, "no guard relates the scalar to curve->m, and bitlen(n) > m for %s: a scalar with bit m "
+                         "set reads the never-initialised entry pt_arr[m]" % ", ".join(over))
+        else:
+            rep.proved("R-CAP", fn, "doubling-table-capacity", desc, "scalar < n and bitlen(n) <= m for all %d curves" % len(curves))
+    return n
+
+
 def comb_coverage(rep, u):
     """comb evaluators consume the scalar through bn_combo_column_get(d, bit_off, wnd_bits, wnd_count), which reads the bits
     bit_off - j*wnd_count (j < wnd_bits).  Traced (partial evaluation, table reads defaulted) for several table geometries
@@ -654,15 +692,17 @@ def run(rep, tier):
     rep.floor("point outputs with coordinate stores", n_flag, 3)
     del CURVES[:]
     curve_table(rep, us[aspecs[0].label])
-    ncap = 0
+    ncap = npd = 0
     ncov = nform = 0
     from props import c02_formulas
     for s_ in aspecs:
         ncap += comb_capacity(rep, us[s_.label], list(CURVES))
+        npd += predbl_capacity(rep, us[s_.label], list(CURVES))
         ncov += comb_coverage(rep, us[s_.label])
         nform += c02_formulas.check(rep, us[s_.label], EC_H)
     rep.floor("group-law formula instances (polynomial domain)", nform, 30)
     rep.floor("comb multipliers", ncap, 2)
+    rep.floor("doubling-table multipliers", npd, 1)
     rep.floor("comb evaluators (coverage)", ncov, 2)
     return driver.finish(
         rep, "other",
